@@ -93,6 +93,7 @@ func checkC01(c *Ctx) {
 	c01ZA(c)
 	c01DER(c)
 	c01Consumers(c)
+	fixedWidthHashed(c, "P-WIDTH-hash")
 }
 
 func bigParams(f *ssa.Function) []*ssa.Parameter {
@@ -505,11 +506,19 @@ func isPadHelper(f *ssa.Function) bool {
 		return v
 	}
 	res := false
+	var rets []ssa.Value
 	for _, b := range f.Blocks {
 		if ret, ok := b.Instrs[len(b.Instrs)-1].(*ssa.Return); ok && len(ret.Results) == 1 {
-			phi, ok := ret.Results[0].(*ssa.Phi)
-			res = ok && padIdiom(phi, f.Params[0])
+			rets = append(rets, ret.Results[0])
 		}
+	}
+	switch len(rets) {
+	case 1:
+		phi, ok := rets[0].(*ssa.Phi)
+		res = ok && padIdiom(phi, f.Params[0])
+	case 2:
+		// early-return form: `if len(b) < 32 { return append(zeros[:32-len(b)], b...) }; return b`
+		res = padAlternatives(rets, nil, f.Params[0])
 	}
 	padHelperCache[f] = res
 	return res
@@ -520,9 +529,18 @@ func padIdiom(phi *ssa.Phi, raw ssa.Value) bool {
 	if len(phi.Edges) != 2 {
 		return false
 	}
+	return padAlternatives(phi.Edges, phi.Block(), raw)
+}
+
+// padAlternatives: the two alternatives `vals` (phi edges at block `at`, or the values of two return statements)
+// are raw itself and append(zeros[:32-len(raw)], raw...), the latter taken exactly when len(raw) < 32
+func padAlternatives(vals []ssa.Value, at *ssa.BasicBlock, raw ssa.Value) bool {
+	if len(vals) != 2 {
+		return false
+	}
 	var app *ssa.Call
 	hasRaw := false
-	for _, e := range phi.Edges {
+	for _, e := range vals {
 		if e == raw {
 			hasRaw = true
 		} else if call, ok := e.(*ssa.Call); ok {
@@ -549,9 +567,12 @@ func padIdiom(phi *ssa.Phi, raw ssa.Value) bool {
 	if !isLenOf(hi.Y, isRaw) || !zeroSource(sl.X) {
 		return false
 	}
-	// the padded edge is taken exactly when len(raw) < 32
-	blk := phi.Block()
-	for d := blk.Idom(); d != nil; d = d.Idom() {
+	// the padded alternative is taken exactly when len(raw) < 32
+	start := app.Block().Idom()
+	if at != nil {
+		start = at.Idom()
+	}
+	for d := start; d != nil; d = d.Idom() {
 		ifi, ok := lastIf(d)
 		if !ok {
 			continue
@@ -626,6 +647,12 @@ func c01ZA(c *Ctx) {
 			d = "pad32(" + p + ")"
 		} else if b, ok := oneByte(arg); ok {
 			d = "byte(" + be.plain(b, w).String() + ")"
+		} else if bs, ok := literalBytes(arg); ok {
+			// []byte{a, b, ...}: the same bytes as one Write per element
+			for _, b := range bs {
+				seq = append(seq, "byte("+be.plain(b, w).String()+")")
+			}
+			continue
 		} else {
 			d = be.plain(arg, w).String()
 		}
@@ -725,6 +752,53 @@ func oneByte(v ssa.Value) (ssa.Value, bool) {
 		return nil, false
 	}
 	return appendedValue(v)
+}
+
+// literalBytes: the element values of a composite literal []byte{e0, e1, ...} (a whole fresh array, each element
+// stored exactly once)
+func literalBytes(v ssa.Value) ([]ssa.Value, bool) {
+	sl, ok := v.(*ssa.Slice)
+	if !ok || sl.Low != nil || sl.High != nil {
+		return nil, false
+	}
+	al, ok := sl.X.(*ssa.Alloc)
+	if !ok {
+		return nil, false
+	}
+	pt, _ := al.Type().Underlying().(*types.Pointer)
+	if pt == nil {
+		return nil, false
+	}
+	at, ok := pt.Elem().Underlying().(*types.Array)
+	if !ok || at.Len() < 2 || at.Len() > 16 {
+		return nil, false
+	}
+	out := make([]ssa.Value, at.Len())
+	for _, r := range *al.Referrers() {
+		switch x := r.(type) {
+		case *ssa.IndexAddr:
+			k, isK := constInt(x.Index)
+			if !isK || k < 0 || k >= at.Len() {
+				return nil, false
+			}
+			for _, r2 := range *x.Referrers() {
+				st, isSt := r2.(*ssa.Store)
+				if !isSt || st.Addr != ssa.Value(x) || out[k] != nil {
+					return nil, false
+				}
+				out[k] = st.Val
+			}
+		case *ssa.Slice:
+		default:
+			return nil, false
+		}
+	}
+	for _, e := range out {
+		if e == nil {
+			return nil, false
+		}
+	}
+	return out, true
 }
 
 func c01DER(c *Ctx) {
